@@ -148,6 +148,50 @@ def run(facts, res):
                               "commit the staged changes would be gone" % (w.path, fld, t.callee.name), w.loc(t.line))
     res.floor("O2", "state mutations in raw writers", n2, 1)
 
+    # ------------------------------------------------------------------ O6 a raw writer answers Ok only through its adapter write
+    # A success that does not pass the adapter's write is a success without a durable item: a memo of keys "already handed to the adapter"
+    # filled before the write, or a remembered pack identifier returned again, makes the retry after a failure a no-op that reports success.
+    # Accepted: the pack writer's `nothing staged` answer, and a memo filled only after the adapter write succeeded.
+    from ..common import pass_anchors, bypassing_returns
+    from ..conds import unaccepted
+    res.rule("O6", "raw writers report success only through the adapter write (or with nothing staged / a memo filled after a successful write)")
+    n6 = 0
+    for w in writers:
+        anchors = pass_anchors(facts, w, lambda t: t.callee is not None and ((t.callee.trait == ADAPTER_TRAIT and t.callee.name == "write_object") or
+                                                                           (w.path != R.path("raw_write") and t.callee.target() == R.path("raw_write"))), depth=3)
+        if not anchors:
+            continue
+        byp, oks = bypassing_returns(w, anchors, "Ok")
+        n6 += len(oks)
+        seen = set()
+        for a, o in byp:
+            if o in seen:
+                continue
+            seen.add(o)
+
+            def ok6(l, w=w):
+                if l.kind == "variant":
+                    # outcome of a lock / of nothing that decides whether to write
+                    fp_ = [x for x in walk(l.term) if x[0] == "field"]
+                    return not any(x[2] not in ("adapter", "stage") for x in fp_) and not contains_call(l.term, "insert")
+                if l.kind == "call" and callee_name(l.term) == "is_empty" and l.truth is True and l.term[2] and "stage" in field_path(l.term[2][0])[0]:
+                    return True
+                if l.kind == "cmp" and contains_call(l.term, "len") and any(x[0] == "field" and x[2] == "stage" for x in walk(l.term)):
+                    return True
+                if l.kind == "call" and callee_name(l.term) in ("contains", "contains_key") and l.truth is True and l.term[2]:
+                    fp = field_path(l.term[2][0])[0]
+                    return bool(fp) and _memo_filled_after_write(facts, w, fp[0], anchors)
+                return False
+            extra = [repr(l) for l in unaccepted(lits_of(w, o, facts), ok6)]
+            ln6 = next((st.line for st in w.blocks[o].stmts if getattr(st, "line", 0) and st.line > 1), w.blocks[o].term.line)
+            res.instance("O6", "%s: a success that does not pass the adapter write is answered only with nothing to write (other conditions: %s)" % (w.path, extra or "none"),
+                         w.loc(ln6))
+            if extra:
+                res.violation("O6", "%s|success-without-write" % w.path,
+                              "%s reports success without passing its adapter write under %s: after a failed write the retry is answered Ok although "
+                              "nothing durable was written" % (w.path, extra[:2]), w.loc(ln6))
+    res.floor("O6", "success returns of raw writers examined", n6, 2)
+
     # ------------------------------------------------------------------ O3
     if len(block_sites) == 1:
         bs = block_sites[0]
@@ -213,6 +257,22 @@ def run(facts, res):
                 if not ok:
                     res.violation("O5", "%s|write-mixes-items" % cb.path, "%s writes bytes that do not derive from the item named by the key" % cb.path, cb.loc(t.line))
     res.floor("O5", "meld raw writes", n5, 1)
+
+
+def _memo_filled_after_write(facts, w, fld, anchors):
+    """every insertion into self.<fld> sits in `w` behind the success edge of the adapter write"""
+    n = 0
+    for b in facts.repo_bodies():
+        for bi, t in b.calls():
+            if t.callee is None or t.callee.name not in ("insert", "push", "extend") or not t.args:
+                continue
+            fp, root = field_path(arg_term(b, t, 0))
+            if not fp or fp[0] != fld:
+                continue
+            n += 1
+            if b is not w or not all(success_dominates(w, a, bi, facts) for a in anchors):
+                return False
+    return n > 0
 
 
 def _result_handled(body, block, dest):
